@@ -303,6 +303,7 @@ static Case makeCase(uint64_t seed, long long k) {
     cs.stream = "main";
   }
   cs.circ = vc::genCircuit(g, o);
+  if (g.chance(1, 8)) { vc::translate(cs.circ, g.range(-(1ll << 26), 1ll << 26), g.range(-(1ll << 26), 1ll << 26)); cs.stream += "+far"; }
   bool nonDefault = g.chance(1, 2);
   // genParams draws the effort first: read it from a copy of the generator state (every field
   // legalize/placeDetailed look at is recorded in the params line anyway)
